@@ -17,6 +17,9 @@ MC_KindT == <<"default", "default", "setup", "new", "shared", "shared">>
 \* one real instance next to the two inert ones
 MC_StoreI == <<1, 2, 3>>
 MC_KindI == <<"default", "empty", "none">>
+\* a real instance, the wrapper TraceparentCtxt<ThreadLocalCtxt> (storage of its own), and an inert one
+MC_StoreW == <<1, 2, 3>>
+MC_KindW == <<"default", "tp", "empty">>
 \* three instances constructed during the program by whichever thread (each thread's first, second, ...)
 \* next to one that exists before
 MC_StoreM == <<1, 2, 3>>
@@ -31,6 +34,8 @@ MC_Store4 == <<1, 2, 0, 0>>
 \* property maps over keys (a, b): {a:1}, {a:2, b:1}, {b:2}
 MC_Props3 == {<<1, 0>>, <<2, 1>>, <<0, 2>>}
 MC_Props2 == {<<1, 0>>, <<2, 1>>}
+\* ... and the EMPTY property set (Frame::root(ctxt, Empty) detaches from the ambient context)
+MC_Props2E == {<<1, 0>>, <<2, 1>>, <<0, 0>>}
 MC_NoDups == {}
 \* a:1 then a:2;  b:2, a:2, b:1
 MC_Dups == {<< <<1, 1>>, <<1, 2>> >>, << <<2, 2>>, <<1, 2>>, <<2, 1>> >>}
